@@ -159,4 +159,264 @@ theorem specSel_mem_iff {Obj : Type} [DecidableEq Obj] (idents S : List Obj) (c 
             have : c = (c - 1) + 1 := by omega
             rw [this, List.getElem?_cons_succ] at h2; exact h2
 
+
+/-- the specified list starts with the X axis (channel 0): the first field of every row is the index value -/
+theorem specSel_head {Obj : Type} [DecidableEq Obj] (idents S : List Obj) (hne : idents ≠ []) :
+    (specSel idents S).head? = some 0 := by
+  cases idents with
+  | nil => exact absurd rfl hne
+  | cons x rest =>
+    simp only [specSel]
+    split
+    · simp [List.range_succ_eq_map]
+    · rfl
+
+example : (specSel ["DEPT", "GR"] ["GR"]).head? = some 0 := by decide
+
+/-! ## fields_separated -/
+
+/-- **fields_separated** (data rows): whatever the field width and however wide the value texts are, a printed row
+tokenises on blanks into exactly the list of value texts — consecutive fields are always separated by at least one
+blank.  Hypotheses: the columns are in frame-array order (so only the first can be channel 0) and every text is
+non-empty and blank-free (`GoodText`; shown for the number formatters in `number_texts_good`). -/
+theorem fields_separated (w : Nat) (cols : List Col) (hidx : (cols.map (·.1)).Pairwise (· < ·))
+    (hg : ∀ p ∈ cols, GoodText p.2) :
+    splitWs (rowLine w cols) = cols.map (·.2) := by
+  cases cols with
+  | nil => rfl
+  | cons p rest =>
+    have hpos := tail_pos_of_pairwise p rest hidx
+    have hgp : GoodText p.2 := hg p (by simp)
+    have hgr : ∀ q ∈ rest, GoodText q.2 := fun q hq => hg q (by simp [hq])
+    have hne : p.2.isEmpty = false := by
+      cases h : p.2 with
+      | nil => exact absurd h hgp.1
+      | cons _ _ => rfl
+    have e : rowLine w (p :: rest) = (if p.1 > 0 then [' '] else []) ++ (padLeft w p.2 ++ tailLine w rest) := by
+      rw [← rowLine_tail w rest hpos]; simp [rowLine]
+    rw [splitWs, e]
+    split
+    · rw [List.singleton_append, splitWsAux_blank_cons, splitWsAux_padLeft w _ _ hgp,
+        splitWsAux_tailLine w rest _ hgr, hne]; simp
+    · rw [List.nil_append, splitWsAux_padLeft w _ _ hgp, splitWsAux_tailLine w rest _ hgr, hne]; simp
+
+/-- a row with field width 3 whose values are all wider than the field -/
+example : splitWs (rowLine 3 [(0, "1234.5".toList), (2, "-0.25".toList), (3, "7".toList)]) =
+    ["1234.5".toList, "-0.25".toList, "7".toList] := by decide
+
+/-- **fields_separated** (the `~A` line): after the literal `~A` the line tokenises into exactly the channel names,
+for every width (including `width < 2`, defect F21) and names wider than the field. -/
+theorem heading_fields_separated (w : Nat) (cols : List Col) (hidx : (cols.map (·.1)).Pairwise (· < ·))
+    (hg : ∀ p ∈ cols, GoodText p.2) :
+    ∃ rest, headLine w cols = '~' :: 'A' :: rest ∧ splitWs rest = cols.map (·.2) := by
+  refine ⟨_, rfl, ?_⟩
+  cases cols with
+  | nil => rfl
+  | cons p rest =>
+    have hpos := tail_pos_of_pairwise p rest hidx
+    have hgp : GoodText p.2 := hg p (by simp)
+    have hgr : ∀ q ∈ rest, GoodText q.2 := fun q hq => hg q (by simp [hq])
+    have hne : p.2.isEmpty = false := by
+      cases h : p.2 with
+      | nil => exact absurd h hgp.1
+      | cons _ _ => rfl
+    rw [splitWs, List.flatMap_cons, headLine_tail w rest hpos]
+    split
+    · rw [splitWsAux_padLeft _ _ _ hgp, splitWsAux_tailLine w rest _ hgr, hne]; simp
+    · rw [List.cons_append, splitWsAux_blank_cons, splitWsAux_padLeft w _ _ hgp,
+        splitWsAux_tailLine w rest _ hgr, hne]; simp
+
+/-- width 1 (`max(width - 2, 0) = 0`): the first name follows `~A` directly, the reader does not tokenise this line -/
+example : headLine 1 [(0, "DEPT".toList), (1, "GR".toList)] = "~ADEPT GR".toList := by decide
+example : headLine 8 [(0, "DEPT".toList), (2, "GR".toList)] = "~A  DEPT       GR".toList := by decide
+example : splitWs ((headLine 1 [(0, "DEPT".toList), (1, "GR".toList)]).drop 2) = ["DEPT".toList, "GR".toList] := by
+  decide
+
+/-- the texts produced by the number formatters are non-empty and contain no blank -/
+theorem number_texts_good (red : Reduction) (isInt negz : Bool) (d : Nat) (v : Rat) (n : Int) :
+    GoodText (fmtFixed negz v d) ∧ GoodText (intText n) ∧ GoodText (cellText red isInt d v) := by
+  refine ⟨goodText_fmtFixed _ _ _, goodText_intText _, ?_⟩
+  unfold cellText
+  split
+  · split
+    · exact goodText_fmtFixed _ _ _
+    · exact goodText_intText _
+  · exact goodText_fmtFixed _ _ _
+
+/-- the first field of a row (channel 0) is never preceded by a separator -/
+theorem first_field_no_separator (w : Nat) (t : List Char) (rest : List Col) :
+    rowLine w ((0, t) :: rest) = padLeft w t ++ rowLine w rest := by
+  simp [rowLine]
+
+/-! ## print_error -/
+
+/-- **print_error**: the decimal numeral printed for `v` with `d` decimals denotes a number within half a unit of the
+last printed decimal of `v` (round-half-even on the exact value; `-0.00` for negative values that round to zero and
+for the IEEE negative zero). -/
+theorem print_error (negz : Bool) (v : Rat) (d : Nat) :
+    ∃ p, parseDec (fmtFixed negz v d) = some p ∧ |p - v| ≤ 1 / (2 * (10 : Rat) ^ d) := by
+  refine ⟨_, parseDec_fmtFixed negz v d, ?_⟩
+  have hP : (0 : Rat) < (10 : Rat) ^ d := by positivity
+  have h := abs_le.1 (roundHalfEven_err (v * (10 : Rat) ^ d))
+  have e : (roundHalfEven (v * (10 : Rat) ^ d) : Rat) / (10 : Rat) ^ d - v =
+      ((roundHalfEven (v * (10 : Rat) ^ d) : Rat) - v * (10 : Rat) ^ d) / (10 : Rat) ^ d := by
+    field_simp
+  rw [e, abs_le]
+  constructor
+  · rw [le_div_iff₀ hP]
+    have : -(1 / (2 * (10 : Rat) ^ d)) * (10 : Rat) ^ d = -(1 / 2) := by field_simp
+    rw [this]; exact h.1
+  · rw [div_le_iff₀ hP]
+    have : 1 / (2 * (10 : Rat) ^ d) * (10 : Rat) ^ d = 1 / 2 := by field_simp
+    rw [this]; exact h.2
+
+/-- `0.125` with `.2f` is an exact half at the last decimal: ties go to even (`0.12`) -/
+example : fmtFixed false (1 / 8) 2 = "0.12".toList ∧ fmtFixed false (3 / 8) 2 = "0.38".toList ∧
+    fmtFixed false (-1 / 1000) 2 = "-0.00".toList ∧ fmtFixed false (5 / 2) 0 = "2".toList := by decide +kernel
+
+/-- **print_error**, integer `d` format: exact. -/
+theorem print_int_exact (n : Int) : parseDec (intText n) = some (n : Rat) := parseDec_intText n
+
+example : intText (-9223372036854775808) = "-9223372036854775808".toList := by decide +kernel
+
+/-! ## row count and row contents -/
+
+theorem mapE_length {α β ε : Type} (f : α → Except ε β) (l : List α) (r : List β) (h : mapE f l = .ok r) :
+    r.length = l.length := by
+  induction l generalizing r with
+  | nil => simp only [mapE, Except.ok.injEq] at h; subst h; rfl
+  | cons a as ih =>
+    unfold mapE at h
+    split at h
+    · exact absurd h (by simp)
+    · split at h
+      · exact absurd h (by simp)
+      · rename_i bs hbs
+        simp only [Except.ok.injEq] at h; subst h
+        simp [ih _ hbs]
+
+/-- **row count**: when the data writer succeeds it writes exactly one row per frame of the X axis channel. -/
+theorem rows_count {Obj : Type} [DecidableEq Obj] (chans : List (Chan Obj)) (S : List Obj) (red : Reduction)
+    (w d : Nat) (rows : List (List Char)) (h : dataRows chans S red w d = .ok rows) :
+    rows.length = numFrames chans := by
+  unfold dataRows at h
+  have := mapE_length _ _ _ h
+  simpa using this
+
+example : dataRows [({ ident := "DEPT", isInt := false, frames := [[1], [3 / 2]] } : Chan String),
+    { ident := "N", isInt := true, frames := [[7, 9], [8, 11]] }] [] .max 6 1 =
+    .ok ["   1.0      9".toList, "   1.5     11".toList] := by decide +kernel
+
+theorem mapE_cols {α : Type} (g : α → Except Err (List Char)) (idx : α → Nat) (l : List α) (r : List Col)
+    (h : mapE (fun a => (g a).map (fun t => ((idx a, t) : Col))) l = .ok r) :
+    r.map (·.1) = l.map idx ∧ ∀ p ∈ r, ∃ a ∈ l, g a = .ok p.2 := by
+  induction l generalizing r with
+  | nil => simp only [mapE, Except.ok.injEq] at h; subst h; simp
+  | cons a as ih =>
+    unfold mapE at h
+    split at h
+    · exact absurd h (by simp)
+    · rename_i b hb
+      split at h
+      · exact absurd h (by simp)
+      · rename_i bs hbs
+        simp only [Except.ok.injEq] at h; subst h
+        obtain ⟨h1, h2⟩ := ih _ hbs
+        cases hg : g a with
+        | error e => rw [hg] at hb; exact absurd hb (by simp [Except.map])
+        | ok t =>
+          rw [hg] at hb
+          simp only [Except.map, Except.ok.injEq] at hb
+          subst hb
+          refine ⟨by simp [h1], ?_⟩
+          intro p hp
+          simp only [List.mem_cons] at hp
+          rcases hp with rfl | hp
+          · exact ⟨a, by simp, hg⟩
+          · obtain ⟨a', ha', hga'⟩ := h2 p hp
+            exact ⟨a', by simp [ha'], hga'⟩
+
+/-- **row contents**: every row the data writer produces lists exactly the channels of `rowSel` (the same for every
+frame), and tokenises on blanks into one number text per listed channel. -/
+theorem data_row_tokens {Obj : Type} [DecidableEq Obj] (chans : List (Chan Obj)) (S : List Obj) (red : Reduction)
+    (w d f : Nat) (line : List Char) (h : dataRow chans S red w d f = .ok line) :
+    ∃ cols : List Col, line = rowLine w cols ∧ cols.map (·.1) = rowSel (chans.map (·.ident)) S ∧
+      splitWs line = cols.map (·.2) ∧ (splitWs line).length = (rowSel (chans.map (·.ident)) S).length := by
+  unfold dataRow at h
+  split at h
+  · exact absurd h (by simp)
+  · rename_i cols hcols
+    simp only [Except.ok.injEq] at h; subst h
+    obtain ⟨h1, h2⟩ := mapE_cols (fun p : Chan Obj × Nat => cellOf red d f p.1) (fun p => p.2) _ _ hcols
+    have hsel : cols.map (·.1) = rowSel (chans.map (·.ident)) S := by
+      rw [h1]
+      simp only [rowSel, List.zipIdx_map, List.filter_map, List.map_map]
+      rfl
+    have hpw : (cols.map (·.1)).Pairwise (· < ·) := by
+      rw [h1]
+      have : ((chans.zipIdx).map (·.2)).Pairwise (· < ·) := by
+        rw [List.zipIdx_map_snd]; exact List.pairwise_lt_range'
+      exact (List.Pairwise.sublist (List.Sublist.map _ List.filter_sublist) this)
+    have hgood : ∀ p ∈ cols, GoodText p.2 := by
+      intro p hp
+      obtain ⟨a, _, ha⟩ := h2 p hp
+      unfold cellOf at ha
+      split at ha
+      · exact absurd ha (by simp)
+      · split at ha
+        · exact absurd ha (by simp)
+        · split at ha
+          · exact absurd ha (by simp)
+          · simp only [Except.ok.injEq] at ha
+            rw [← ha]; exact (number_texts_good _ _ false _ _ 0).2.2
+    have hs := fields_separated w cols hpw hgood
+    refine ⟨cols, rfl, hsel, hs, ?_⟩
+    rw [hs, ← hsel]; simp
+
+example : dataRow [({ ident := "DEPT", isInt := false, frames := [[1], [3 / 2]] } : Chan String),
+    { ident := "A", isInt := true, frames := [[7, 9], [8, 11]] },
+    { ident := "B", isInt := true, frames := [[1, 2], [-3, 4]] }] ["DEPT", "B"] .mean 2 3 1 =
+    .ok "1.500  0".toList := by decide +kernel
+
+/-! ## reductions -/
+
+theorem foldl_pick_mem (pick : Rat → Rat → Rat) (hp : ∀ a b, pick a b = a ∨ pick a b = b) (xs : List Rat) (a : Rat) :
+    xs.foldl pick a = a ∨ xs.foldl pick a ∈ xs := by
+  induction xs generalizing a with
+  | nil => left; rfl
+  | cons x xs ih =>
+    simp only [List.foldl_cons, List.mem_cons]
+    rcases ih (pick a x) with h | h
+    · rcases hp a x with h' | h'
+      · left; rw [h, h']
+      · right; left; rw [h, h']
+    · right; right; exact h
+
+/-- `first`, `min` and `max` return one of the values of the frame — so for an integer channel the reduced value is an
+integer and the exact `d` format applies (`mean`/`median` may not be integers and are printed with `.0f`). -/
+theorem reduce_mem (m : Reduction) (hm : m.isAverage = false) (xs : List Rat) (v : Rat)
+    (h : reduce m xs = some v) : v ∈ xs := by
+  cases xs with
+  | nil => simp [reduce] at h
+  | cons x rest =>
+    cases m with
+    | first => simp only [reduce, Option.some.injEq] at h; subst h; simp
+    | mean => simp [Reduction.isAverage] at hm
+    | median => simp [Reduction.isAverage] at hm
+    | min =>
+      simp only [reduce, Option.some.injEq] at h; subst h
+      rcases foldl_pick_mem (fun a b => if ratLe b a then b else a)
+        (fun a b => by by_cases hc : ratLe b a = true <;> simp [hc]) rest x with h | h
+      · rw [h]; simp
+      · simp [h]
+    | max =>
+      simp only [reduce, Option.some.injEq] at h; subst h
+      rcases foldl_pick_mem (fun a b => if ratLe a b then b else a)
+        (fun a b => by by_cases hc : ratLe a b = true <;> simp [hc]) rest x with h | h
+      · rw [h]; simp
+      · simp [h]
+
+example : reduce .min [3, -2, 7 / 3] = some (-2) ∧ reduce .max [3, -2, 7 / 3] = some 3 ∧
+    reduce .median [1, 10, 5 / 2, 3] = some (11 / 4) ∧ reduce .mean [1, 2] = some (3 / 2) := by decide +kernel
+
 end TD.C10
